@@ -50,7 +50,7 @@ NETS = {
 }
 SIM_N = {'quick': 150, 'thorough': 1500}
 RND_N = {'quick': 400, 'thorough': 8000}
-GRID_N = {'quick': (1200, 6), 'thorough': (7200, 1)}   # (count, stride) over the 7200 systematic strategies x orders
+GRID_N = {'quick': (917, 11), 'thorough': (10080, 1)}   # (count, stride) over the 10080 systematic strategies x orders
 
 
 def as_map(x):
